@@ -55,16 +55,18 @@ def _json_part(ctx, exe):
 
 
 def run(ctx):
-    ctx.rule = ("templates: every token sequence over {a, space, ',', {{, }}, {x}, {y:>4}, {z:.2}, {n1}, {x:*^5}} x value "
+    ctx.rule = ("templates: every token sequence over {a, space, ',', {{, }}, {x}, {y:>4}, {z:.2}, {n1}, {x:*^5}, {w::>6} (a colon inside the spec)} x value "
                 "tuples (empty, spaces, ',', ':', quote/backslash, magic separator) vs an independent fmt-grammar scanner; "
                 "orders: BFS to fixpoint over first-use histories of 8 templates, state = backend template-cache content, "
-                "one forked process per history; LOGJ_ identifier menu and 26-variable limit; JSON sink lines parsed with "
+                "one forked process per history; LOGJ_ identifier menu and 26-variable limit; ring: every sequence of <= 5 backtrace statements over {two named, positional, argument-less} x ring capacity 1..3, two store/flush cycles - each replayed statement carries exactly its own pairs; JSON sink lines parsed with "
                 "python json; distinct = distinct (template, expected message)")
     exe = vf.build("c19_named", SRC, FLAGS)
     ntok, nsh = (4, 16) if ctx.tier == "quick" else (6, 64)
     jobs = [(exe, ["--mode", "templates", "--ntok", ntok, "--shard", s, "--nshards", nsh], 1500) for s in range(nsh)]
     jobs.append((exe, ["--mode", "orders", "--depth", 12], 1500))
     jobs.append((exe, ["--mode", "logj"], 300))
+    # backtrace ring slots reused by named / positional / argument-less statements
+    jobs.append((exe, ["--mode", "ring"], 600))
     for rr in vf.run_many(jobs):
         ctx.absorb(rr, "c19_named")
     _json_part(ctx, exe)
